@@ -22,6 +22,9 @@ def env():
 
 def run(module, fn, payload, timeout=3600):
     """Call contracts.<module>.<fn>(payload) natively; returns its JSON-able result."""
+    if os.environ.get('PYVC_ONLY_PROOF') and module.startswith('b_') and fn == 'main':
+        return {'name': module, 'evaluations': 0, 'distinct_nontrivial': 0, 'samples': [], 'failures': [],
+                'rule': 'skipped (proof-only run of ./check selftest)', 'harness_errors': []}
     p = subprocess.run([VENV_PY, os.path.join(VERIF, 'pyvc', 'native_main.py'), module, fn],
                        input=json.dumps(payload, default=str), capture_output=True, text=True, env=env(),
                        timeout=timeout, cwd=VERIF)
